@@ -605,6 +605,7 @@ fn judge_k(case: &Case, l_: &mut Local) {
     let tau = 1e-4 * l;
     l_.bucket("family K (open end cut at a skew)");
     let mut outcomes = Vec::new();
+    let mut first: Option<(Option<Point2>, f64, usize)> = None;
     for (pi, pose) in poses().iter().take(3).enumerate() {
         for rev in [false, true] {
             let mut pts: Vec<Point2> = base.iter().map(|p| pose * p).collect();
@@ -640,7 +641,26 @@ fn judge_k(case: &Case, l_: &mut Local) {
                     let axis = (c_end - c_lim).normalize();
                     let beyond = move |st: &InscribedCircle| (inv * st.center() - c_lim).dot(&axis) > 0.0;
                     judge_common(&g, &sec, l, case, &tag, false, &beyond, l_);
-                    let _ = tau;
+                    // the same section in another pose or vertex order gives the same camber line (the open-edge
+                    // methods are deterministic in the geometry: measured agreement on the unchanged code is 1e-9 of
+                    // the allowance used here)
+                    let te_local = g.trailing_edge.as_ref().map(|e| inv * e.point);
+                    let cur = (te_local, g.camber.length(), g.stations.len());
+                    match &first {
+                        None => first = Some(cur),
+                        Some(r) => {
+                            let dte = match (r.0, cur.0) {
+                                (Some(a), Some(b)) => d2(&a, &b),
+                                (None, None) => 0.0,
+                                _ => f64::MAX,
+                            };
+                            let hh = l / n as f64;
+                            if std::env::var("VERIF_DEBUG_C10K").is_ok() {
+                                eprintln!("K {} {} te {}: dte {:.3e} (tau+h), dlen {:.3e} (tau+h)", case.section, tag, case.te, dte / (tau + hh), (r.1 - cur.1).abs() / (tau + hh));
+                            }
+                            l_.check("results are unchanged by rigid motion, vertex order and start vertex", "skewed open end", dte <= 0.05 * (tau + hh) && (r.1 - cur.1).abs() <= 0.05 * (tau + hh), mk, || format!("{}: trailing edge moved by {:e}, camber length {} vs {}, stations {} vs {}", tag, dte, cur.1, r.1, cur.2, r.2));
+                        }
+                    }
                 }
             }
         }
